@@ -17,9 +17,11 @@ ENGINES = ["memkv", "badger", "tikv"]
 # poll has re-read the record (the order of the two goroutines on a networked engine)
 # burst: the old leader hands out thousands of revisions within a fraction of a second before the take-over (the engine clock
 # must have advanced by more than the revisions issued: nanoseconds / PD's 18 logical bits per millisecond do, milliseconds would not)
-REAL_OPTS = {"burst": "", "plain": "", "tso": " f=tso", "mtso": " f=tso", "fresh": " fresh=1 f=tsoslow", "slow": " f=tsoslow", "tso2": " f=tso2",
+# followed: the node that takes over had served reads as a follower (its revision syncer adopted an OLDER read revision of the previous
+# leader): the election timestamp is installed all the same
+REAL_OPTS = {"followed": " followed=%d" % (hist.INIT + 1), "burst": "", "plain": "", "tso": " f=tso", "mtso": " f=tso", "fresh": " fresh=1 f=tsoslow", "slow": " f=tsoslow", "tso2": " f=tso2",
              "released": " released=1 slowget=1", "freshslow": " fresh=1 slowget=1", "plainslow": " slowget=1"}
-REALS = [None, "plain", "tso", "fresh", "slow", "tso2", "released", "freshslow", "mtso", "plainslow", "burst"]
+REALS = [None, "plain", "tso", "fresh", "slow", "tso2", "released", "freshslow", "mtso", "plainslow", "burst", "followed"]
 
 
 def gen_case(seed, i, engine, heavy_failures, real=None):
